@@ -343,6 +343,24 @@ def glue_builtins() -> None:
             f"{aw!r} doesn't refer to anything with an ag_frame attribute"
         )
 
+    if sys.version_info >= (3, 10):
+        # The two-argument form of the anext() builtin returns an awaitable
+        # of its own type that wraps the one returned by __anext__()
+        agen = some_asyncgen()
+        anext_awaitable_type = type(anext(agen, None))
+        try:
+            agen.aclose().send(None)  # type: ignore
+        except (StopIteration, StopAsyncIteration):
+            pass
+
+        @unwrap_stackitem.register(anext_awaitable_type)
+        def unwrap_anext_awaitable(aw: Any) -> Any:
+            # it refers to the awaitable it wraps and to the default value,
+            # in that order, but doesn't expose either
+            for referent in gc.get_referents(aw):  # pragma: no branch
+                return referent
+            raise RuntimeError(f"{aw!r} doesn't refer to anything")  # pragma: no cover
+
     @unwrap_stackitem.register(coro_wrapper_type)
     def unwrap_coroutine_wrapper(aw: Any) -> Any:
         # these refer to only one other object, the underlying coroutine
